@@ -650,6 +650,24 @@ pub enum OddKind {
     /// kernel-generated file (procfs): it has content but reports size 0.
     /// Reading the entry returns what reading the file to its end returns.
     ProcLink,
+    /// An optional metadata file of a package whose content is not UTF-8
+    /// (valid text that ends inside a multi-byte character, a stray 0xFF):
+    /// reading the entry reports an error, it does not return part of the file.
+    BadUtf8Meta,
+}
+
+/// The content of an `OddKind::BadUtf8Meta` file (chosen by the entry's name).
+pub fn bad_utf8_content(name: &[u8]) -> Vec<u8> {
+    let k = crate::rng::hash_bytes(name) as usize;
+    let tails: [&[u8]; 6] = [&[0xE2, 0x82], &[0xF0, 0x9F, 0x98], &[0xC3], &[0xFF], &[b'a', 0xE2], &[0xF0]];
+    let mut v: Vec<u8> = match k % 4 {
+        0 => b"some text\n".to_vec(),
+        1 => vec![],
+        2 => vec![b'a'; 8190],
+        _ => "caf\u{e9} \u{20ac}\n".repeat(3).into_bytes(),
+    };
+    v.extend_from_slice(tails[(k / 4) % tails.len()]);
+    v
 }
 
 /// Kernel-generated files whose content does not change while the machine is
@@ -671,7 +689,15 @@ const ODD_NAMES: [&[u8]; 10] = [
 pub fn odd_objects(r: &mut Rng, dirs: &[PkgDir], used: &[String]) -> Vec<Odd> {
     let ndirs = dirs.len();
     let mut out: Vec<Odd> = vec![];
-    if !cfg!(miri) && ndirs > 0 && r.chance(1, 3) {
+    if ndirs > 0 && r.chance(1, 3) {
+        let i = r.below(ndirs);
+        let absent: Vec<usize> = (0..14).filter(|k| dirs[i].files[*k].is_none() && !MANDATORY.contains(k)).collect();
+        if !absent.is_empty() {
+            let k = *r.pick(&absent);
+            out.push(Odd { place: Some(i), name: META_FILES[k].as_bytes().to_vec(), kind: OddKind::BadUtf8Meta });
+        }
+    }
+    if !cfg!(miri) && ndirs > 0 && r.chance(1, 3) && out.is_empty() {
         let i = r.below(ndirs);
         let absent: Vec<usize> = (0..14).filter(|k| dirs[i].files[*k].is_none() && !MANDATORY.contains(k)).collect();
         if !absent.is_empty() {
